@@ -307,9 +307,12 @@ def r3_state(ctx):
         ctx.absorb(ip, msf.path)
         backs = [b for b in ip.back_states if b[0] == msf.path]
         okn = False
+        every = bool(backs)
         for (_, head, bst, bmap, valid, cur) in backs:
             fr = bst.frames[-1]
             res = [c.v for c in fr.cells if isinstance(c.v, X.Sym) and c.v.wr]
+            # every way round the loop stores a target: a transition that is passed over leaves its class without successor
+            every = every and any(isinstance(key, tuple) and key[0] == '#elem' for r in res for key in r.wr)
             for r in res:
                 for key in r.wr:
                     if isinstance(key, tuple) and key[0] == '#elem':
@@ -324,6 +327,8 @@ def r3_state(ctx):
                                idx[1][1].endswith('CharPartition::class_of_char') and idx[1][2][0] == A(1) and idx[1][2][1] == T.fld(('fld', tt, '0'), 'start', 'u32'))
         ctx.obligation(okn)
         (ctx.ok if okn else ctx.violation)('C13.R3', 'C13.R3/make_successor/target-stored-under-class-of-own-set', msf.path, msf.site(), None, cfg)
+        ctx.obligation(every)
+        (ctx.ok if every else ctx.violation)('C13.R3', 'C13.R3/make_successor/every-transition-stores-its-target', msf.path, msf.site(), {'back_edges': len(backs)}, cfg)
 
 
 def r4_bookkeeping(ctx):
